@@ -2,6 +2,9 @@ package sx
 
 import (
 	"go/types"
+	"strconv"
+
+	"gosx/smt"
 
 	"golang.org/x/tools/go/ssa"
 )
@@ -16,6 +19,19 @@ func registerStd(e *Engine) {
 	for _, n := range noop {
 		e.AddRule(n, ruleNoop)
 	}
+	// time.Now: an arbitrary wall-clock instant (no monotonic reading, UTC)
+	e.AddRule("time.Now", func(w *W, fn *ssa.Function, a []Value) Value {
+		if w.initDepth > 0 {
+			// package initialisers run once, concretely: a fixed instant
+			return StructV{F: []Value{w.C.BVu(0, 64), w.C.BVu(63700000000, 64), PtrV{}}}
+		}
+		w.internal++
+		defer func() { w.internal-- }()
+		secs := w.Fresh("time.Now", 64)
+		// keep the instant in a sane range (years 1..9999) so that Unix()/Add do not wrap
+		w.Assume(w.C.And(w.C.Sge(secs, w.C.BVu(0, 64)), w.C.Slt(secs, w.C.BVu(300000000000, 64))))
+		return StructV{F: []Value{w.C.BVu(0, 64), secs, PtrV{}}}
+	})
 	e.AddRule("fmt.Sprintf", func(w *W, fn *ssa.Function, a []Value) Value { return w.fmtString(a) })
 	e.AddRule("fmt.Sprint", func(w *W, fn *ssa.Function, a []Value) Value { return w.strConst("<fmt.Sprint>") })
 	e.AddRule("fmt.Sprintln", func(w *W, fn *ssa.Function, a []Value) Value { return w.strConst("<fmt.Sprintln>") })
@@ -29,14 +45,79 @@ func registerStd(e *Engine) {
 	}
 }
 
-// fmtString renders a format call as "<fmt:FORMAT>" (formatting is not modelled).
+// fmtString renders a format call. Formats that only use %s, %d, %v and %% with
+// concrete string / integer arguments are rendered exactly (the "ip:port"
+// pattern is the subject of C24/C26); anything else becomes the opaque text
+// "<fmt:FORMAT>" (formatting is not modelled).
 func (w *W) fmtString(a []Value) StrV {
-	if s, ok := a[0].(StrV); ok {
-		if cs, ok := concreteStr(s); ok {
-			return w.strConst("<fmt:" + cs + ">")
+	s, ok := a[0].(StrV)
+	if !ok {
+		return w.strConst("<fmt>")
+	}
+	format, ok := concreteStr(s)
+	if !ok {
+		return w.strConst("<fmt>")
+	}
+	opaque := w.strConst("<fmt:" + format + ">")
+	var args []Value
+	if len(a) > 1 {
+		if sl, ok := a[1].(SliceV); ok {
+			args = w.sliceValues(sl)
 		}
 	}
-	return w.strConst("<fmt>")
+	var out []*smt.Term
+	ai := 0
+	for i := 0; i < len(format); i++ {
+		ch := format[i]
+		if ch != '%' {
+			out = append(out, w.C.BVu(uint64(ch), 8))
+			continue
+		}
+		i++
+		if i >= len(format) {
+			return opaque
+		}
+		verb := format[i]
+		if verb == '%' {
+			out = append(out, w.C.BVu('%', 8))
+			continue
+		}
+		if (verb != 's' && verb != 'd' && verb != 'v') || ai >= len(args) {
+			return opaque
+		}
+		iv, ok := args[ai].(IfaceV)
+		ai++
+		if !ok || iv.T == nil {
+			return opaque
+		}
+		switch v := iv.V.(type) {
+		case StrV:
+			if verb == 'd' {
+				return opaque
+			}
+			out = append(out, v.B...) // symbolic bytes are fine: the length is concrete
+		case *smt.Term:
+			if !v.IsConst() || v.W == 0 || verb == 's' {
+				return opaque
+			}
+			_, sgn, _ := intWidth(iv.T)
+			var txt string
+			if sgn {
+				txt = strconv.FormatInt(v.Int64(), 10)
+			} else {
+				txt = v.Val.String()
+			}
+			for j := 0; j < len(txt); j++ {
+				out = append(out, w.C.BVu(uint64(txt[j]), 8))
+			}
+		default:
+			return opaque
+		}
+	}
+	if ai != len(args) {
+		return opaque
+	}
+	return StrV{B: out}
 }
 
 var _ = types.Typ
